@@ -468,7 +468,15 @@ func (t *Transport) RoundTripOpt(req *http.Request, opt RoundTripOpt) (*http.Res
 			return nil, err
 		}
 		traceGotConn(req, cc, true)
-		return cc.RoundTrip(req)
+		res, err := cc.RoundTrip(req)
+		if err == errClientConnUnusable {
+			// The connection stopped taking requests between its selection and
+			// its use (e.g. a single-use connection under DisableKeepAlives that
+			// another request claimed first). Nothing was written: report a
+			// cache miss so that the caller dials, as the retry loop below would.
+			return nil, ErrNoCachedConn
+		}
+		return res, err
 	}
 	for retry := 0; ; retry++ {
 		cc, err = t.connPool().GetClientConn(req, addr, true)
